@@ -79,8 +79,10 @@ theorem C07_all_null_group (ov : List (String × String)) :
     simp only at hmv hmsg hb ha
     subst hmv hmsg
     simp only [copyFromFields, copyFromField]
-    rw [C07_null_branch _ ov info k hb attrs st unk null p ha hnu]
-    exact C07_all_null_group ov rest attrs st (fun g hg => h g (by simp [hg]))
+    split
+    · exact C07_all_null_group ov rest attrs st (fun g hg => h g (by simp [hg]))
+    · rw [C07_null_branch _ ov info k hb attrs st unk null p ha hnu]
+      exact C07_all_null_group ov rest attrs st (fun g hg => h g (by simp [hg]))
 
 theorem C07_all_null_message (ov : List (String × String)) (m : Msg) (attrs : List (String × TfVal))
     (prior : List (String × GoVal))
